@@ -407,14 +407,28 @@ class Parser:
         )
 
     def parse_infix_expression(
-        self, stream: TokenStream, left: Expression
+        self, stream: TokenStream, left: Expression, *, left_grouped: bool = False
     ) -> Expression:
         tok = stream.next_token()
         precedence = self.PRECEDENCES.get(tok.type_, self.PRECEDENCE_LOWEST)
-        right = self.parse_filter_expression(stream, precedence)
         operator = self.BINARY_OPERATORS[tok.type_]
 
         if operator in self.COMPARISON_OPERATORS:
+            # Comparable expressions are never parenthesized or negated.
+            if left_grouped:
+                raise JSONPathSyntaxError(
+                    "parenthesized expressions are not comparable", token=tok
+                )
+            if stream.current.type_ in (TokenType.LPAREN, TokenType.NOT):
+                raise JSONPathSyntaxError(
+                    f"unexpected {stream.current.value!r}", token=stream.current
+                )
+
+        right = self.parse_filter_expression(stream, precedence)
+
+        if operator in self.COMPARISON_OPERATORS:
+            self._raise_for_non_comparable_expression(left, tok)
+            self._raise_for_non_comparable_expression(right, tok)
             self._raise_for_non_comparable_function(left, tok)
             self._raise_for_non_comparable_function(right, tok)
             return ComparisonExpression(tok, left, operator, right)
@@ -511,6 +525,7 @@ class Parser:
     def parse_filter_expression(
         self, stream: TokenStream, precedence: int = PRECEDENCE_LOWEST
     ) -> Expression:
+        grouped = stream.current.type_ == TokenType.LPAREN
         try:
             left = self.token_map[stream.current.type_](stream)
         except KeyError as err:
@@ -534,7 +549,8 @@ class Parser:
                 return left
 
             stream.next_token()
-            left = self.parse_infix_expression(stream, left)
+            left = self.parse_infix_expression(stream, left, left_grouped=grouped)
+            grouped = False
 
         return left
 
@@ -666,6 +682,17 @@ class Parser:
     def _is_low_surrogate(self, codepoint: int) -> bool:
         return codepoint >= 0xDC00 and codepoint <= 0xDFFF
 
+    def _raise_for_non_comparable_expression(
+        self, expr: Expression, token: Token
+    ) -> None:
+        if not isinstance(
+            expr, (FilterExpressionLiteral, FilterQuery, FunctionExtension)
+        ):
+            raise JSONPathSyntaxError(
+                "only literals, singular queries and function calls are comparable",
+                token=token,
+            )
+
     def _raise_for_non_comparable_function(
         self, expr: Expression, token: Token
     ) -> None:
@@ -679,5 +706,5 @@ class Parser:
                 and func.return_type != ExpressionType.VALUE
             ):
                 raise JSONPathTypeError(
-                    f"result of {expr.name}() is not comparable", token
+                    f"result of {expr.name}() is not comparable", token=token
                 )
